@@ -10,13 +10,54 @@ BASELINE = ("cd /repo && /venv/bin/python -m pytest -ra -q -p no:cacheprovider -
 
 # id -> (technique, level text, level note, design ref)
 CLAIMED = {
+    'C01': (
+        'bounded exhaustive enumeration of documents (all line sequences <= n over a 21-kind line alphabet x EOL/final-newline '
+        'variants x attribution mode x every parse target on harvested fragments) executed on the real parser/printer',
+        'Every accepted text in the closed small world is parsed and printed; store concatenation, every sub-model slice and the '
+        'whole-file print are compared with the input.',
+        'Line alphabet with one representative per lexer character class; fragments may leave trivia outside the returned model.',
+        '§4 C01'),
+    'C02': (
+        'exhaustive enumeration of (document, token, replacement) and all ordered pairs of assignments, span-replacement oracle, at '
+        'load factors default/3/2',
+        'Every token of every corpus document (zero-width and trivia included) gets every replacement raw text / value from its '
+        'class domain; the printed text must be the input with exactly that span replaced.',
+        'Documents <= 2-3 lines; assignments that raise are judged by C19, not here.',
+        '§4 C02'),
+    'C03': (
+        'breadth-first exploration of edit histories (depth 1 whole corpus, depth 2 small corpus) over the descriptor-derived '
+        'structural alphabet with a window/sibling/gap oracle',
+        'Every setter and every MutableSequence/Mapping call with every index/slice/arity combination is executed on every model '
+        'of every corpus document; everything outside the parent, every sibling and every gap is compared token by token.',
+        'Default-parsed documents; donors from a fixed table; gap clause = old gap or declared separators.',
+        '§4 C03'),
+    'C05': (
+        'breadth-first exploration of edit histories over the whole edit alphabet, structural invariant check_tree in every state',
+        'All histories up to depth 1 (whole corpus) / 2 (small corpus), deduplicated by canonical state, with the tree invariant '
+        'evaluated after every step and on every popped node.',
+        'Documents <= 3 lines over the edit alphabet; histories are not extended after a refusal.',
+        '§4 C05'),
+    'C06': (
+        'breadth-first exploration of syntax-preserving edit histories; oracle = print -> parse -> structural comparison',
+        'All histories up to depth 1/2 over the syntax-preserving alphabet; the printed document must re-parse to the same '
+        'comparison signature and comment lines.',
+        'string0 (grammar-dead) and the documented custom-number ambiguity are out of contract; attribution, zero-width marks, '
+        'trailing blanks of inline comments are not compared.',
+        '§4 C06'),
     'C07': (
         'explicit-state fixpoint BFS over the real TokenStore at load factors 2..7 (state = block layout + caches), '
-        'lock-step plain-list reference; band of splices at the default thresholds; load-factor differential through the model API',
+        'lock-step plain-list reference; band of splices at the default thresholds',
         'All reachable block layouts under a token cap are enumerated for each small load factor and every API call is '
         'executed from every one of them against a plain list; this is the level at which split/merge/renumber bugs live.',
         'Token texts abstracted to classes {x, newline}; stores up to cap tokens; thresholds re-derived from the tree\'s own formulas.',
         '§4 C07'),
+    'C08': (
+        'explicit-state fixpoint BFS over the real TokenStore with newline-bearing/empty token classes and update transitions; '
+        'document-level exhaustive token assignments and structural edits; oracle = positions recomputed from the text',
+        'Every reachable (layout, cache) state under the cap x every splice/update; plus every token assignment and structural '
+        'edit on every corpus document, with every token\'s (line, column, ordinal) compared against the printed text.',
+        'Token texts abstracted to 4 classes; <= 2 newline-bearing tokens per store in the store-level space.',
+        '§4 C08'),
 }
 
 PENDING_REASON = 'check not implemented yet in this commit (planned: see DESIGN.md §4); not claimed until it runs'
